@@ -80,6 +80,34 @@ def wl_parsers(ctx, config):
                 o = ctx.call(ser_op, r.b(1), config=config)
                 if o is not None: ctx.check(o.ret == 1 and o.b(1) == s == ser_model(P), "%s:roundtrip" % ser_op, "%s -> %r" % (s.hex(), o), config)
 
+def wl_one_sided(ctx, config):
+    """tallies with one EMPTY side: they balance iff the other side alone sums to the point at infinity - possible with zero values and
+    blinding factors summing to 0 mod n, or with non-zero values under a generator of known discrete log"""
+    rng = ctx.rng
+    for it in range(ctx.n(40, 1000)):
+        k = rng.choice((1, 2, 2, 3, 5)); kind = it % 4
+        h = rng.randrange(1, n); H = mulG(h) if kind >= 2 else zkp.generate(pools.rbytes(rng, 32))[1]
+        go = ctx.call("generator_parse", zkp.gen_ser(H), config=config)
+        if go is None or go.ret != 1: continue
+        if kind >= 2: vals = [rng.randrange(1, 2**40) for _ in range(k)]
+        else: vals = [0] * k
+        bls = [rng.randrange(1, n) for _ in range(k)]
+        tot = sum(bls) + (sum(v * h for v in vals) if kind >= 2 else 0)
+        balanced = rng.random() < 0.6
+        if balanced: bls[-1] = (bls[-1] - tot) % n
+        if bls[-1] == 0 and vals[-1] == 0: continue
+        objs = []; acc = None
+        for v, b in zip(vals, bls):
+            c = ctx.call("pedersen_commit", b32(b), v, go.b(1), config=config)
+            if c is None or c.ret != 1: objs = None; break
+            objs.append(c.b(1)); acc = add(acc, add(mulG(b), mul(v, H) if v else None))
+        if not objs: continue
+        for side in (0, 1):
+            r = ctx.call("pedersen_verify_tally", b''.join(objs) if side == 0 else b'', k if side == 0 else 0, b''.join(objs) if side == 1 else b'', k if side == 1 else 0, config=config)
+            if r is None: continue
+            ctx.ev("pedersen_verify_tally", "one_sided:%s:%s" % ("pos" if side == 0 else "neg", "sum_infinity" if acc is None else "nonzero"), True, k, side, *[o[:33] for o in objs[:3]])
+            ctx.check(r.ret == (1 if acc is None else 0), "pedersen_verify_tally:one_sided:%s" % ("accepted_unbalanced" if r.ret else "rejected_balanced"), "k=%d side=%d kind=%d" % (k, side, kind), config)
+
 def wl_tally(ctx, config):
     rng = ctx.rng
     for it in range(ctx.n(260, 6000)):
@@ -184,4 +212,5 @@ def run(ctx):
         wl_commit(ctx, config)
         wl_parsers(ctx, config)
         wl_tally(ctx, config)
+        wl_one_sided(ctx, config)
         wl_blind_sum(ctx, config)
